@@ -6,6 +6,7 @@ import MotoModel.Model.Tape
 import MotoModel.Spec.BasicRef
 import MotoModel.Proofs.BasicCompose
 import MotoModel.Proofs.BasicWords
+import MotoModel.Proofs.BasicReference
 namespace Moto.C13
 open Moto Moto.Basic Moto.Spec
 
@@ -241,5 +242,41 @@ example : (∀ p ∈ [Piece.kw (Tape.str "NEXT") 32, Piece.word (Tape.str "100")
     rcases this with rfl | rfl <;> exact ⟨by decide, by decide, by decide +kernel⟩
   · exact ⟨isToken_mem' _ (by decide +kernel), by decide⟩
   · exact ⟨by decide, by decide⟩
+
+/-! ### every delimited line -/
+
+/-- **C13 (the bytes equal those of the reference encoder)**: for *every* line text in the domain of
+    the property — every word outside string literals (maximal run of characters other than
+    . , ( ) : blank, the one-character operator tokens and the double quote, taken in upper case) is
+    exactly a keyword or contains no keyword — the tokenizer stores exactly what the reference
+    encoder `Spec.BasicRef.encodeRef` stores: the token of each keyword (ELSE after a colon), every
+    other word in upper case, the operators as their tokens, punctuation and blanks as they are,
+    string literals verbatim (an unterminated one up to the end of the line).  No bound on the length,
+    the number of words, the spacing, or the kind of separator on either side of a word.
+    (Proofs/BasicDelimited.lean, Proofs/BasicReference.lean: the states of the tokenizer at the start
+    and at the end of a word, what each separator does from there; the five keywords that begin
+    with a shorter keyword are evaluated in the kernel.) -/
+theorem delimited_line (body : Str) (h : BasicRef.delimited body = true) : encodeBody body = BasicRef.encodeRef body :=
+  encodeBody_eq_encodeRef body h
+
+/-- the record of a delimited line holds the reference encoding of its text -/
+theorem delimited_record (ptr : Nat) (line : Str) (rest : List Str) (num : Nat) (body : Str) (more : Bytes)
+    (hl : extractLineParts line = some (num, body)) (hd : BasicRef.delimited body = true)
+    (hr : convertLines (ptr + (BasicRef.encodeRef body).length + 5) rest = some more) :
+    convertLines ptr (line :: rest)
+      = some (u16 (ptr + (BasicRef.encodeRef body).length + 5) ++ u16 num ++ BasicRef.encodeRef body ++ [0] ++ more) := by
+  rw [← delimited_line body hd] at hr ⊢
+  exact convertLines_cons ptr line rest num body more hl hr
+
+/-- non-vacuity: lines of the domain, with keywords after a pending operator, before a literal, at
+    the end of the line, identifiers that hold keyword letters, an unterminated literal -/
+example : BasicRef.delimited (Tape.str "if a$=\"x\"+inkey$ then b= -len\"ab\":next else print \"bye") = true := by decide +kernel
+example : BasicRef.delimited (Tape.str "TOTAL=1") = false := by decide +kernel
+
+/-- regression witnesses of the defect repaired by `commitAsToken` (F17): a keyword behind a pending
+    operator, at the end of the line and before a literal -/
+example : encodeBody (Tape.str "A =PRINT") = [0x41, 0x20, 0xD4, 0xAB] := by decide +kernel
+example : encodeBody (Tape.str "A$=\"X\"+INKEY$") = [0x41, 0x24, 0xD4, 0x22, 0x58, 0x22, 0xC7, 0xFF, 0xA0] := by decide +kernel
+example : encodeBody (Tape.str "(+PRINT\"X\"") = [0x28, 0xC7, 0xAB, 0x22, 0x58, 0x22] := by decide +kernel
 
 end Moto.C13
